@@ -1,11 +1,34 @@
 /-
 Props/C32 — Simple-cursor JSON index navigates valid documents exactly.
--/
-import SuccinctlyVerif.Model.JsonSimple
-namespace SV.Props.C32
-open SV SV.JsonSimple
+Property theorems only; helper lemmas live in Proof/JsonSimple.lean.
 
-/-- placeholder while model and correspondence are brought up -/
-theorem placeholder : structuralCount ⟨[], 0, [], 0⟩ = 0 := rfl
+"Valid JSON document" = `Doc` of `Spec/JsonSimple.lean` (a value tree rendered through tokens with
+arbitrary RFC 8259 whitespace); `toksTags` marks, per byte of the text, the `{ } [ ] , :` tokens —
+bytes of string tokens are never marked.  The index is `SimpleJsonIndex::build` as modelled in
+`Model/JsonSimple.lean` (runtime-dispatched SIMD builder; by C05 it is the reference index).
+-/
+import SuccinctlyVerif.Proof.JsonSimple
+namespace SV.Props.C32
+open SV SV.JsonSimple SV.JsonText
+
+/-- For every valid JSON document (indeed for every token sequence), whichever SIMD level built the
+index: the `structural_positions` iterator lists exactly the byte positions of the `{ } [ ] , :`
+tokens — never a byte inside a string — in increasing order, `structural_pos(k)` is the `k`-th of
+them (`None` from `structural_count()` on), and `structural_count()` is their number. -/
+theorem structural_list_eq (hasAvx2 : Bool) (d : Doc) :
+    structuralPositions (build hasAvx2 d.text) = truePositions (toksTags d.toks) ∧
+    (∀ k, structuralPos (build hasAvx2 d.text) k = (truePositions (toksTags d.toks))[k]?) ∧
+    structuralCount (build hasAvx2 d.text) = (truePositions (toksTags d.toks)).length := by
+  refine ⟨structuralPositions_build hasAvx2 d.toks, ?_, ?_⟩
+  · intro k
+    rw [Doc.text, structuralPos_build, (sreference_toks d.toks).1, selectB_truePositions]
+  · rw [Doc.text, structuralCount_build, (sreference_toks d.toks).1, truePositions_length]
+
+/-- Non-vacuity: `{"a,":[1]}` — the comma inside the key is not listed. -/
+example :
+    let d : Doc := ⟨[], .obj [] [.plain ⟨0x61#8, by decide⟩, .plain ⟨0x2C#8, by decide⟩] [] []
+      (.arr [] (.num ⟨false, .nonzero 0 [], none, none⟩) [] .nil) [] .nil, []⟩
+    d.text = [0x7B, 0x22, 0x61, 0x2C, 0x22, 0x3A, 0x5B, 0x31, 0x5D, 0x7D] ∧
+    truePositions (toksTags d.toks) = [0, 5, 6, 8, 9] := by decide
 
 end SV.Props.C32
